@@ -34,4 +34,14 @@ func Store.Close
 func NewMutation
   props C05 C07
   ensures result != nil && fresh(result) && result.Table == table && result.Key == key && result.Value == value
+
+// C16: the managed store's backup operations (ghost bookkeeping of what is asked of it)
+func ManagedStore.Backup
+  modifies everything, backupCalls, lastBackupMeta
+  assumes backupCalls == old(backupCalls) + 1 && lastBackupMeta == metadata
+func ManagedStore.DeleteBackup
+  modifies everything, deleteBackupCalls, lastDeletedBackup
+  assumes deleteBackupCalls == old(deleteBackupCalls) + 1 && lastDeletedBackup == backupID
+func ManagedStore.GetBackupsInfo
+  modifies everything
 @*/
